@@ -172,11 +172,32 @@ def mirror_ok(sa, sb):
     return None
 
 
-def twin_runs(ctx, rng, n, sl):
+def _twin_worker(spec):
+    a = dict(spec, maximize=False)
+    b = dict(spec, maximize=True)
+    try:
+        sa, sb = R.plain_run(a), R.plain_run(b)
+    except Exception as e:  # noqa: BLE001
+        from ..common import is_env_crash
+
+        if is_env_crash(e):
+            return {"status": "env", "exc": type(e).__name__}
+        return {"status": "crash", "detail": f"{type(e).__name__}: {e}"}
+    return {"status": "ok", "demes": len(sa["demes"]), "evals": sa["n_evals"], "mirror": mirror_ok(sa, sb)}
+
+
+def twin_specs(rng, n):
+    specs = []
     for i in range(n):
         nlev = int(rng.choice([1, 2, 2, 3]))
         eng = {0: ["de", "ded", "shade", "lhs", "sobol", "xde"], 1: ["de", "ded", "shade", "cma", "cmaw", "cmas", "xde"] + (["local"] if nlev == 2 else []), 2: ["de", "shade", "cma", "cmaw", "local", "xde"]}
-        spec = R.rand_spec(rng, nlev=nlev, engines=eng, objective=str(rng.choice(["four", "plateau0", "sphere", "penalty"])), max_steps=int(rng.integers(3, 8)))
+        obj = str(rng.choice(["four", "plateau0", "sphere", "penalty"]))
+        if i % 4 == 1:
+            # local searches started on a plateau stop at once (zero gradient, no iteration, the callback is
+            # never called): what the deme records then must mirror as well
+            nlev, obj = 2, "plateau0"
+            eng = {0: ["de", "ded", "shade", "xde"], 1: ["local"]}
+        spec = R.rand_spec(rng, nlev=nlev, engines=eng, objective=obj, max_steps=int(rng.integers(3, 8)))
         for L in spec["levels"]:
             if L["lsc"]["kind"] == "FitnessSteadiness":
                 L["lsc"] = {"kind": "MetaepochLimit", "limit": int(rng.integers(1, 5))}
@@ -192,29 +213,32 @@ def twin_runs(ctx, rng, n, sl):
             spec["gsc"] = {"kind": "MetaepochLimit", "limit": int(rng.integers(3, 8))}
         else:
             spec["cutoff"] = None
-        a = dict(spec, maximize=False)
-        b = dict(spec, maximize=True)
-        try:
-            sa, sb = R.plain_run(a), R.plain_run(b)
-        except Exception as e:
-            from ..common import is_env_crash
+        specs.append(spec)
+    return specs
 
-            if is_env_crash(e):
-                sl.skipped += 1
-                sl.count("skipped:third-party-library-raised:" + type(e).__name__)
-                continue
-            sl.violations.append({"signature": "C13/run-crashed", "detail": f"{type(e).__name__}: {e}", "replay": {"spec": spec}})
+
+def twin_runs(ctx, rng, n, sl):
+    from ..common import pmap
+
+    n = ctx.boost(n) if hasattr(ctx, "boost") else n
+    specs = twin_specs(rng, n)
+    for i, (spec, r) in enumerate(zip(specs, pmap(_twin_worker, specs, chunksize=2))):
+        if r["status"] == "env":
+            sl.skipped += 1
+            sl.count("skipped:third-party-library-raised:" + r["exc"])
+            continue
+        if r["status"] == "crash":
+            sl.violations.append({"signature": "C13/run-crashed", "detail": r["detail"], "replay": {"spec": spec}})
             continue
         sl.cases += 1
         d = R.describe(spec)
         sl.count("engines:" + ">".join(d["engines"]))
-        if len(sa["demes"]) >= 2:
+        if r["demes"] >= 2:
             sl.nontrivial.add(R.spec_id(spec))
-        m = mirror_ok(sa, sb)
-        if m:
-            sl.violations.append({"signature": "C13/whole-run-differs", "detail": f"{d['engines']} {d['sprout']} seed {spec['seed']}: {m}", "replay": {"spec": spec}})
+        if r["mirror"]:
+            sl.violations.append({"signature": "C13/whole-run-differs", "detail": f"{d['engines']} {d['sprout']} seed {spec['seed']}: {r['mirror']}", "replay": {"spec": spec}})
         if i < 2:
-            sl.sample({"spec": d, "demes": len(sa["demes"]), "evals": sa["n_evals"]})
+            sl.sample({"spec": d, "demes": r["demes"], "evals": r["evals"]})
     return sl
 
 
